@@ -1,5 +1,6 @@
 import RdsProofs.Reach
 import RdsProofs.C12Proofs
+import RdsProofs.AuditFrames
 /-!
 # Property C12 — every reported clock time is the broadcast UTC instant shifted by the offset
 
@@ -15,6 +16,9 @@ broadcast instant shifted by the offset, across midnight, month and year ends.
 -- THEOREM: RDS.civilFromDays_correct
 -- THEOREM: RDS.ctInit_correct
 -- THEOREM: RDS.ctInit_reject
+-- THEOREM: RDS.ctFields_spec
+-- THEOREM: RDS.ctFields_spec_mod
+-- THEOREM: RDS.afr_ctFieldsShift_eq
 namespace RDS
 
 /-- C12 for every history and every next call -/
